@@ -38,7 +38,7 @@ fn py_string(r: &mut Rng, marks: &[usize], max: usize) -> (Vec<u8>, &'static str
             let mut s = String::new();
             for _ in 0..n {
                 match r.below(5) {
-                    0 => s.push(*r.pick(&['é', 'ß', 'Ω', 'あ', '漢', '𝔸', '😀', '\u{a0}', '\u{85}', 'Ａ', 'Ｃ'])),
+                    0 => s.push(*r.pick(&['é', 'ß', 'Ω', 'あ', '漢', '𝔸', '😀', '\u{a0}', '\u{85}', 'Ａ', 'Ｃ', 'ẗ', 'ẚ', 'ﬅ', 'ﬆ', 'ı', 'ſ', 'ŉ', 'ǰ', 'ΐ', 'ﬃ', 'İ', 'K', 'Å'])),
                     1 => {
                         // a non-ASCII scalar value whose low byte is a nucleotide letter (must still be ambiguous)
                         let hi = match r.below(3) { 0 => r.range(1, 7), 1 => r.range(8, 0xD7), _ => r.range(0x100, 0x10FF) } as u32;
